@@ -466,9 +466,7 @@ def first_bad(ents):
 
 
 def exc_matches(exc, verdict):
-    if verdict == "model-error:index":      # F14
-        return exc["type"] == "IndexError" and "match_link_and_residue_atoms" in exc["site"]
-    return False                            # F31 / F32 are repaired: their errors are violations again
+    return False       # no finding is open: every exception of the code is a violation (hook kept for future open findings)
 
 
 def judge(ck, prop, doc, metas, name):
@@ -487,7 +485,8 @@ def judge(ck, prop, doc, metas, name):
     ck.traces += nacc
     if rejected:
         sub = {"ffs": doc["ffs"], "cases": [doc["cases"][i] for i in rejected]}
-        by2 = validate(ck, prop, sub, name + "_asis", asis=True, count=False)
+        # with an open finding the rejected records are re-validated with DevAsIs to classify them exactly
+        by2 = validate(ck, prop, sub, name + "_asis", asis=True, count=False) if u.OPEN else {}
         for j, i in enumerate(rejected):
             case, meta = doc["cases"][i], metas[i]
             ents = by2.get(j + 1, [])
